@@ -31,6 +31,38 @@ def _both(fn, s):
     return (r,) if ra == r else (r, ("bytearray-variant-differs",) + ra)
 
 
+# calls that RAISE on the unchanged tree (wrong argument types, short or foreign input), some of them only after part of
+# the work was done; a later valid call in the same process must not see anything of them (the helpers are pure functions).
+# Every entry terminates on the unchanged tree (no negative ints: `while l or i` never ends for them).
+BAD = [("intToB64", (4095, 2.0)), ("intToB64", (4095, None)), ("intToB64", (4095, "2")), ("intToB64", (1.5, 1)),
+       ("intToB64", (64 ** 5 + 7, 4 / 2)), ("intToB64b", (70000, 2.5)), ("intToB64b", (70000, None)),
+       ("b64ToInt", (None,)), ("b64ToInt", (5,)), ("b64ToInt", ("\u00e9A",)), ("b64ToInt", (b"A\xff",)), ("b64ToInt", ("",)),
+       ("codeB64ToB2", ("AB=",)), ("codeB64ToB2", (None,)), ("codeB64ToB2", ("",)),
+       ("codeB2ToB64", (b"\xff", 5)), ("codeB2ToB64", (b"\xff\xff\xff", 2.5)), ("codeB2ToB64", (None, 1)), ("codeB2ToB64", (b"\xff\xff\xff", None)),
+       ("nabSextets", (b"", 3)), ("nabSextets", (b"abc", "2")), ("nabSextets", (None, 1)), ("nabSextets", (b"abcd", 2.5))]
+
+TEXT = [0x41, 0x42, 0x5F, 0x2D, 0x7A, 0x30, 0xE9, 0xF8, 0xC5, 0xA0, 0x20AC, 0x2192, 0x1D11E, 0x10FFFF, 0x80, 0x7FF, 0x800]
+
+
+def _target(fn, b, l):
+    """one helper on a binary target given as bytes, bytearray and — when the bytes are valid utf-8 — as the str they
+    encode (the helpers accept both and encode a str first); one result when all agree"""
+    r = _res(fn, bytes(b), l)
+    out = [r]
+    ra = _res(fn, bytearray(b), l)
+    if ra != r:
+        out.append(("bytearray-variant-differs",) + ra)
+    try:
+        t = bytes(b).decode("utf-8")
+    except UnicodeDecodeError:
+        t = None
+    if t is not None:
+        rs = _res(fn, t, l)
+        if rs != r:
+            out.append(("str-variant-differs",) + rs)
+    return out
+
+
 class C26(core.Check):
     pid = "C26"
     pkg = "B64"
@@ -38,14 +70,15 @@ class C26(core.Check):
     design_ref = "DESIGN.md §5 C26"
     technique = "Lean 4 theorems over a model of the Base64 helpers + regenerated alphabet tables + differential run against hio.help.helping"
     level_text = ("Lean theorems for all n, l, all strings and all byte lists (unbounded): int_roundtrip_partial (all (n,l) != (0,0)), "
-                  "digits_count (minimal length), code_roundtrip, nab_keeps_leading_bits, plus the error branches; the (0,0) point is proved to fail "
+                  "digits_count (minimal length), code_roundtrip, code_of_target (arbitrary binary target: l chars, decoding them gives nabSextets), nab_keeps_leading_bits, plus the error branches; the (0,0) point is proved to fail "
                   "(int_roundtrip_fails_at_0_0) and is a recorded known finding. The alphabet tables the proofs use are re-extracted from the module on every run; "
                   "the hand-written model is tied to the code by a seeded differential run (and an exhaustive small scope in thorough).")
     level_note = ("Trusted: Lean kernel + propext/Classical.choice/Quot.sound; the translator harness/extract/b64.py; that the sampled correspondence is representative "
                   "(Python int ops modelled as Nat ops; float ceil in sceil modelled as integer ceiling).")
     quick_n = 3000
     thorough_n = 200000
-    rule = ("cases: (int n l) intToB64 then b64ToInt; (code s) codeB64ToB2 then codeB2ToB64; (nab b l) nabSextets; "
+    rule = ("(b2 b l) codeB2ToB64 and nabSextets on one arbitrary target given as bytes, bytearray and (when valid utf-8, incl. 2-4 byte characters) str; (seq ..) histories may contain calls that raise on the unchanged tree (BAD table: wrong argument types, short/foreign input) between the valid calls; "
+            "cases: (int n l) intToB64 then b64ToInt; (code s) codeB64ToB2 then codeB2ToB64; (nab b l) nabSextets; "
             "(codeseq s1 s2 ..) a history of code conversions of related strings in one process (same leading sextets, lengths 4k-1/4k, extensions by A); (dec s) b64ToInt on arbitrary code points.  n mixes 0, 64^k±1 and uniform up to 2^256; l in 0..70; "
             "strings up to 40 chars over the alphabet (dec: also foreign chars).  non-trivial = not (n<64 and l<=1) and not empty string; distinct by request line")
     trusted_base = ["translator harness/extract/b64.py (alphabet tables read from the imported module)",
@@ -63,7 +96,11 @@ class C26(core.Check):
                 ("codeseq", [[ord(c) for c in "ABCDEFG"], [ord(c) for c in "ABCDEFGA"]]), ("nab", [255, 255, 255], 3), ("nab", [255], 2), ("nab", [1, 2, 3, 4, 5, 6], 7),
                 ("dec", [33]), ("dec", [0x41, 0x100]), ("dec", []),
                 ("decb", [0x41, 0xC3, 0xA9]), ("decb", [0xFF]), ("decb", [0x42, 0x5F]),
-                ("seq", [("int", 4095, 2), ("int", 4095, 2), ("code", [ord(c) for c in "-BC"]), ("nab", [255, 16, 32], 3), ("dec", [66])])]
+                ("seq", [("int", 4095, 2), ("int", 4095, 2), ("code", [ord(c) for c in "-BC"]), ("nab", [255, 16, 32], 3), ("dec", [66])]),
+                ("b2", [0xC3, 0xB8], 1), ("b2", [0xE2, 0x82, 0xAC], 4), ("b2", [0xE2, 0x82, 0xAC, 0x41], 3), ("b2", [0x41, 0xC3, 0xA9, 0x42], 2),
+                ("b2", [0xF0, 0x9D, 0x84, 0x9E, 0x41, 0x42], 8), ("b2", [255, 254], 3), ("b2", [], 0), ("b2", [65], 0),
+                ("seq", [("bad", 0), ("int", 5, 2)]), ("seq", [("bad", 4), ("code", [ord(c) for c in "-BC"]), ("bad", 15), ("b2", [1, 2, 3], 4)]),
+                ("seq", [("int", 7, 1)] + [x for k in range(len(BAD)) for x in (("bad", k), ("int", 64 + k, 3))])]
 
     def exhaustive(self, tier):
         if tier != "thorough":
@@ -95,17 +132,28 @@ class C26(core.Check):
                 fam = [base, base + [ord('A')], base[:-1], base + [ord('A'), ord('A')], base + [ord(rng.choice(B64))]]
                 rng.shuffle(fam)
                 yield ("codeseq", [f for f in fam[:rng.randrange(2, 6)] if f])
-            elif k < 0.82:
-                # mixed histories of any calls in one process (purity: no call depends on an earlier one)
+            elif k < 0.84:
+                # mixed histories of any calls in one process (purity: no call depends on an earlier one), with
+                # FAILING calls in between (BAD): nothing of a failed call may leak into a later one
                 sub = []
                 for c in self.generate(rng, rng.randrange(2, 5), tier):
                     if c[0] not in ("seq",):
+                        if rng.random() < 0.5:
+                            sub.append(("bad", rng.randrange(len(BAD))))
                         sub.append(c)
                 yield ("seq", sub)
-            elif k < 0.85:
+            elif k < 0.88:
+                # arbitrary binary targets for the two front-of-primitive helpers; half of them valid utf-8 text
+                # (ASCII, 2-, 3-, 4-byte characters) so that the str form of the same target exists
+                if rng.random() < 0.5:
+                    b = list("".join(chr(rng.choice(TEXT)) for _ in range(rng.randrange(0, 9))).encode("utf-8"))
+                else:
+                    b = [rng.choice([0, 255, 0xC3, 0xA9, rng.randrange(256)]) for _ in range(rng.randrange(0, 20))]
+                yield ("b2", b, rng.choice([0, 1, 2, 3, 4, 5, 7, 8, rng.randrange(0, 28)]))
+            elif k < 0.9:
                 ln = rng.randrange(0, 10)
                 yield ("decb", [rng.choice([ord(rng.choice(B64)), rng.randrange(256), 0xC3, 0xA9, 0xFF]) for _ in range(ln)])
-            elif k < 0.9:
+            elif k < 0.94:
                 ln = rng.randrange(0, 30)
                 b = [rng.choice([0, 255, rng.randrange(256)]) for _ in range(ln)]
                 yield ("nab", b, rng.randrange(0, 42))
@@ -115,7 +163,14 @@ class C26(core.Check):
                 yield ("dec", s)
 
     def request(self, case):
+        if case[0] == "seq":         # the failing calls are not put to the model: it answers every other call on its own
+            return ("seq", [c for c in case[1] if c[0] != "bad"])
         return case
+
+    def compare_view(self, case, obs):
+        if case[0] == "seq":
+            obs = tuple(o for c, o in zip(case[1], obs) if c[0] != "bad")
+        return sx.dumps(obs)
 
     def model_applies(self, case):
         if case[0] == "seq":
@@ -158,6 +213,13 @@ class C26(core.Check):
                 if rs != r:
                     return (r, ("str-variant-differs",) + rs)
             return (r,)
+        if kind == "b2":
+            _, b, l = case
+            return tuple(_target(helping.codeB2ToB64, b, l)[:1] + _target(helping.nabSextets, b, l)[:1]
+                         + _target(helping.codeB2ToB64, b, l)[1:] + _target(helping.nabSextets, b, l)[1:])
+        if kind == "bad":       # a call that fails on the unchanged tree; only whether it raised is recorded
+            fn, args = BAD[case[1]]
+            return (_res(getattr(helping, fn), *args)[:1],)
         if kind == "decb":      # raw bytes to b64ToInt (decoded as utf-8 by the library): oracle only
             return (_res(helping.b64ToInt, bytes(case[1])),)
         if kind == "seq":
@@ -204,6 +266,22 @@ class C26(core.Check):
             # the conversions are functions of their arguments: a call must not depend on earlier calls
             for s_, o in zip(case[1], obs):
                 bad += self.oracle(("code", s_), o)
+        elif kind == "b2":
+            _, b, l = case
+            n = -(-l * 3 // 4)
+            if len(obs) != 2:
+                bad.append("target-form-changes-result")
+            if n <= len(b):
+                bits = "".join(f"{x:08b}" for x in b[:n])
+                exp = tuple(ord(B64[int(bits[6 * k:6 * k + 6], 2)]) for k in range(l))
+                if obs[0] != ("ok",) + exp:
+                    bad.append("code-leading-sextets")
+                bad += self.oracle(("nab", b, l), obs[1:2])
+            else:
+                if obs[0][0] != "raise":
+                    bad.append("code-short-input-accepted")
+                if obs[1][0] != "raise":
+                    bad.append("nab-short-input-accepted")
         elif kind == "nab":
             _, b, l = case
             n = -(-l * 3 // 4)
@@ -231,11 +309,21 @@ class C26(core.Check):
             return not (case[1] < 64 and case[2] <= 1)
         if case[0] in ("codeseq", "seq"):
             return len(case[1]) > 1
+        if case[0] == "bad":
+            return False
         return len(case[1]) > 0
 
     def features(self, case, obs):
         if case[0] in ("codeseq", "seq"):
-            return [case[0], f"{case[0]}:len={len(case[1])}"]
+            return [case[0], f"{case[0]}:len={len(case[1])}"] + (["seq:with-failing-calls"] if any(c[0] == "bad" for c in case[1]) else [])
+        if case[0] == "bad":
+            return ["bad"]
+        if case[0] == "b2":
+            try:
+                t = "utf8-text" if any(x > 127 for x in case[1]) and bytes(case[1]).decode("utf-8") is not None else "ascii-or-empty"
+            except UnicodeDecodeError:
+                t = "raw-bytes"
+            return ["b2", "b2:" + t, f"b2:{obs[0][0]}"]
         f = [case[0], f"{case[0]}:{obs[0][0]}" + (":" + obs[0][1] if obs[0][0] == "raise" else "")]
         if case[0] == "int":
             f.append("int:l=0" if case[2] == 0 else "int:l>0")
@@ -268,12 +356,12 @@ class C26(core.Check):
             s = case[1]
             for i in range(len(s)):
                 yield (case[0], s[:i] + s[i + 1:])
-        elif case[0] == "nab":
+        elif case[0] in ("nab", "b2"):
             _, b, l = case
             for i in range(len(b)):
-                yield ("nab", b[:i] + b[i + 1:], l)
+                yield (case[0], b[:i] + b[i + 1:], l)
             if l:
-                yield ("nab", b, l - 1)
+                yield (case[0], b, l - 1)
 
     def mutate(self, rng, case):
         return list(self.shrink(case))
